@@ -121,7 +121,8 @@ ASSUMPTIONS = [
     "(get_inert_ratio_prnc rotates the uncentred float contour; its "
     "rounding error grows with the fourth power of the distance: 4e-5 at "
     "3000 px, 0.5 % at 10^4 px, 30 % at 3*10^4 px for a 10 px object); "
-    "tolerance 3e-5 + 2e-14 x^3 y / min(mu20, mu02)",
+    "tolerance 2e-7 (float32 result; observed <= 6e-8 within 512 px) + "
+    "2e-14 x^3 y / min(mu20, mu02) (observed <= 0.2 of it)",
 ]
 
 # both defects were repaired in /repo (3735645, 726e2fa; known_findings.json
@@ -895,8 +896,11 @@ def do_mask(ctx, case):
     arr = np.asarray(m.transpose(), dtype=np.double)
     nontrivial = False
     frame = case["tag"] == "frame"
+    npix0 = int(m.sum())
     # (1) marching squares: binary and de-cythonised source, both settings
-    for vch in (() if frame else (True, False)):
+    # vertex_connect_high=False is not used by dclab: every third mask
+    for vch in (() if frame else (True, False) if (npix0 % 3 == 0) else
+                (True,)):
         e_bin = enc_iterate(g(cy.iterate_and_store), arr, vch)
         try:
             e_src = enc_iterate(g(decy_module().iterate_and_store), arr,
@@ -1098,7 +1102,7 @@ def do_moments(ctx, case):
             mumin = (T_ - math.sqrt(D_)) / 2 / (36 * abs(a00))
             got = float(ir.get_inert_ratio_prnc(
                 np.array(pts, dtype=int).reshape(-1, 2)))
-            if not abs(got - wp) <= (3e-5 + 2e-14 * xm_ ** 4
+            if not abs(got - wp) <= (2e-7 + 2e-14 * xm_ ** 4
                                      / max(mumin, 1e-3)) * wp:
                 return "get_inert_ratio_prnc vs (T + sqrt D)/(T - sqrt D)", got
         if n02 != 0 and n20 * n02 > 0:
@@ -1110,6 +1114,43 @@ def do_moments(ctx, case):
                 return "get_inert_ratio_raw", raw
         return None
     ctx.add("run_moments", r_pts(pts), case, chk)
+    # prnc_sq evaluated by Coq (integer bracket of sqrt D) against the code,
+    # and the positive-definiteness predicate of the ">= 1" theorem
+    exc = exact_central(pts) if len(pts) >= 3 else None
+    pd = bool(exc and exc["N20"] > 0 and exc["N02"] > 0 and
+              exc["N11"] ** 2 < 4 * exc["N20"] * exc["N02"])
+    xm0 = max([abs(v) for p_ in pts for v in p_] + [1])
+    prnc0 = float(ir.get_inert_ratio_prnc(
+        np.array(pts, dtype=int).reshape(-1, 2))) if len(pts) >= 3 else None
+    run.count("moments:pd=%s" % pd)
+
+    def chk_br(model, pd=pd, prnc0=prnc0, exc=exc, xm0=xm0):
+        if model[0] == 0:
+            T_ = exc["N20"] + exc["N02"] if exc else 0
+            D_ = (exc["N20"] - exc["N02"]) ** 2 + exc["N11"] ** 2 if exc else 0
+            near = exc is not None and (math.isqrt(D_) + 1) >= T_
+            return None if (not pd or near) else (
+                "pd_contour (model false, exact true)", None)
+        if not pd:
+            return "pd_contour (model true, exact false)", None
+        lo = Fraction(model[1], model[2])
+        hi = Fraction(model[3], model[4])
+        if xm0 > 4096 or prnc0 is None:
+            return None
+        T_ = exc["N20"] + exc["N02"]
+        h_ = math.hypot(exc["N11"], exc["N20"] - exc["N02"])
+        mumin = (T_ - h_) / 2 / (36 * abs(exc["a00"]))
+        tol = 2e-7 + 2e-14 * xm0 ** 4 / max(mumin, 1e-3)
+        if not (math.sqrt(lo) * (1 - tol) <= prnc0 <=
+                math.sqrt(hi) * (1 + tol)):
+            return "get_inert_ratio_prnc outside the bracket of prnc_sq", \
+                prnc0
+        if prnc0 < 1 - tol:
+            return "get_inert_ratio_prnc < 1 for positive definite moments", \
+                prnc0
+        return None
+    if len(pts) >= 3:
+        ctx.add("run_prnc_bracket", r_pts(pts), case, chk_br)
 
     # ---- oracle laws on the real code (model independent) ----
     ci = np.array(pts, dtype=int).reshape(-1, 2)
@@ -1139,8 +1180,12 @@ def do_moments(ctx, case):
         # (eps each) before they cancel down to mu ~ size^4; stated bound:
         xm = float(np.abs(ci[:, 0]).max() + abs(t[0]))
         ym = float(np.abs(ci[:, 1]).max() + abs(t[1]))
-        mumin = max(min(abs(mom["mu20"]), abs(mom["mu02"])), 1e-3)
-        ptol = 3e-5 + 2e-14 * max(xm, ym) ** 3 * max(min(xm, ym), 1) / mumin
+        # smaller eigenvalue of the second-moment matrix (elongated shapes:
+        # much smaller than mu20, mu02)
+        lam = (mom["mu20"] + mom["mu02"] - math.hypot(
+            mom["mu20"] - mom["mu02"], 2 * mom["mu11"])) / 2
+        mumin = max(min(abs(mom["mu20"]), abs(mom["mu02"]), abs(lam)), 1e-3)
+        ptol = 2e-7 + 2e-14 * max(xm, ym) ** 3 * max(min(xm, ym), 1) / mumin
         far = max(xm, ym) > 4096     # observed: error ~ x^4, 0.5 % at 10^4
         if far:
             run.count("prnc:skipped-far-from-origin")
@@ -1202,7 +1247,7 @@ def do_rotation(ctx, case):
                 b = float(ir.get_inert_ratio_prnc(np.array(cs)))
                 a_i = float(ir.get_inert_ratio_prnc(np.array(ci)))
                 mumin = (T - math.sqrt(D)) / 2 / (36 * abs(ex["a00"]))
-                tol = 3e-5 + 2e-14 * xm ** 4 * K / max(mumin, 1e-3)
+                tol = 2e-7 + 2e-14 * xm ** 4 * K / max(mumin, 1e-3)
                 if not (abs(b - wp) <= tol * wp and abs(a_i - wp) <= tol * wp):
                     ctx.fail(case, "principal inertia ratio %r, after rotation "
                              "by atan2(%d, %d) and scaling %r; eigenvalue "
@@ -1223,7 +1268,7 @@ def do_rotation(ctx, case):
         s = mom["mu20"] + mom["mu02"]
         if s - d > 1e-9 * s:
             want = math.sqrt((s + d) / (s - d))
-            if not fclose(a, want, rel=5e-6):
+            if not fclose(a, want, rel=2e-6):
                 ctx.fail(case, "principal inertia ratio %r, eigenvalue ratio "
                          "of the second moments %r" % (a, want))
     ctx.run.record_case(case, ok)
@@ -1349,9 +1394,16 @@ def do_volume(ctx, case):
     def gv(cc, x, y, p):
         if case["container"] == "single":
             return float(get_volume(cc, x, y, p))
-        out = get_volume([cc, cc], np.array([x, x]), np.array([y, y]), p)
-        if not fclose(out[0], out[1], rel=0):
-            return float("inf")
+        # a batch of two DIFFERENT events: each equals its single call
+        oth = (cc[::-1] + np.array([7, 3])).copy()
+        x2, y2 = x + 5.5 * p, y + 2.25 * p
+        out = get_volume([cc, oth], np.array([x, x2]), np.array([y, y2]), p)
+        one = [float(get_volume(cc, x, y, p)), float(get_volume(oth, x2, y2,
+                                                                 p))]
+        if not (fclose(out[0], one[0], rel=1e-12) and
+                fclose(out[1], one[1], rel=1e-12)):
+            ctx.fail(case, "get_volume(list of two different events) = %s, "
+                     "single calls give %s" % (list(map(float, out)), one))
         return float(out[0])
     v = gv(c, px, py, pix)
     ext = (np.ptp(c[:, 0]) + 1) * (np.abs(c[:, 1] - case["cy8"] / k).max()
@@ -1411,6 +1463,17 @@ def do_volume(ctx, case):
         hc = np.array(hullp, dtype=int)
         hx = Fraction(sum(p_[0] for p_ in hullp), len(hullp))
         hy = Fraction(sum(p_[1] for p_ in hullp), len(hullp))
+        # counter_clockwise() is a heuristic on the unwrapped polar angles
+        # (its docstring: may make things worse): only well-conditioned
+        # shapes, every angular step seen from the centre below 2.8 rad
+        angs = [math.atan2(p_[1] - float(hy), p_[0] - float(hx))
+                for p_ in hullp]
+        steps = [(angs[(i_ + 1) % len(angs)] - angs[i_]) % (2 * math.pi)
+                 for i_ in range(len(angs))]
+        if max(steps) >= 2.8:
+            hullp = []
+            ctx.run.count("volume:fix_orientation-skipped-sliver")
+    if len(hullp) >= 4:
         f1 = float(gfix(hc, float(hx) * pix, float(hy) * pix, pix,
                         fix_orientation=True))
         f2 = float(gfix(hc[::-1].copy(), float(hx) * pix, float(hy) * pix, pix,
@@ -1478,6 +1541,19 @@ def do_sphere(ctx, case):
         v = float(get_volume(cont, xs.mean() * 0.34, ys.mean() * 0.34, 0.34))
         tv = 4 / 3 * math.pi * A * B * B * 0.34 ** 3
         err = abs(v - tv) / tv
+        # the contour runs through the centres of boundary pixels, which lie
+        # within one pixel inside the ellipse: the volume is positive and
+        # between those of the ellipsoids (A-1, B-1) and (A, B)
+        lo_v = 4 / 3 * math.pi * max(A - 1, 0) * max(B - 1, 0) ** 2 * 0.34 ** 3
+        if not (lo_v * (1 - 1e-9) <= v <= tv * (1 + 1e-9)):
+            ctx.fail(case, "discretised ellipsoid %gx%g px: volume %r not "
+                     "between the ellipsoid shrunk by one pixel (%r) and the "
+                     "ellipsoid (%r)" % (A, B, v, lo_v, tv))
+            ok = False
+        if k >= 16 and err > 0.045:
+            ctx.fail(case, "discretised ellipsoid at 16x: rel. error %.3g > "
+                     "0.045" % err)
+            ok = False
         if err > 2.0 / min(A, B):
             ctx.fail(case, "discretised ellipsoid %gx%g px: volume %r, "
                      "analytic %r (rel. error %.3g > 2/min)" % (
@@ -1834,8 +1910,17 @@ def do_dataset(ctx, case):
     masks = np.array([m["rows"] for m in case["masks"]], dtype=bool)
     n = len(masks)
     rs = np.random.RandomState(case["seed"])
-    img = rs.randint(0, 255, masks.shape).astype(np.uint8)
-    bg = rs.randint(90, 110, masks.shape).astype(np.uint8)
+    idt = np.dtype(case.get("imgdtype", "uint8"))
+    if idt == np.uint8:
+        img = rs.randint(0, 255, masks.shape).astype(np.uint8)
+        bg = rs.randint(90, 110, masks.shape).astype(np.uint8)
+    elif idt == np.uint16:       # 16 bit camera: values above int16
+        img = rs.randint(0, 65535, masks.shape).astype(np.uint16)
+        bg = rs.randint(30000, 36000, masks.shape).astype(np.uint16)
+    else:                        # int16 frames (already offset-corrected)
+        img = rs.randint(-3000, 32767, masks.shape).astype(np.int16)
+        bg = rs.randint(-200, 2000, masks.shape).astype(np.int16)
+    run.count("dataset:image:" + idt.name)
     off = np.array(case["off8"], dtype=float) / 8
     ys = [np.nonzero(m)[0].mean() for m in masks]
     xs = [np.nonzero(m)[1].mean() for m in masks]
@@ -1861,9 +1946,19 @@ def do_dataset(ctx, case):
     conts = [contour.get_contour(m) for m in masks]
     o = off if case["with_off"] else None
     want = {}
-    want["bright_avg"], want["bright_sd"] = bright.get_bright(masks, img)
-    want["bright_bc_avg"], want["bright_bc_sd"] = bright_bc.get_bright_bc(
-        masks, img, bg, bg_off=o)
+    # brightness from exact fractions (independent of numpy dtypes)
+    ba, bs, bca, bcs = [], [], [], []
+    for i in range(n):
+        v0 = img[i][masks[i]].tolist()
+        v1 = (img[i].astype(np.int64) - bg[i].astype(np.int64))[
+            masks[i]].tolist()
+        m0, var0 = exact_stats(v0)
+        m1, var1 = exact_stats(v1)
+        oo = Fraction(case["off8"][i], 8) if case["with_off"] else 0
+        ba.append(float(m0)); bs.append(math.sqrt(var0))
+        bca.append(float(m1 - oo)); bcs.append(math.sqrt(var1))
+    want["bright_avg"], want["bright_sd"] = np.array(ba), np.array(bs)
+    want["bright_bc_avg"], want["bright_bc_sd"] = np.array(bca), np.array(bcs)
     exp_perc = []
     for i in range(n):
         vals = (img[i].astype(int) - bg[i])[masks[i]].tolist()
@@ -1872,12 +1967,18 @@ def do_dataset(ctx, case):
                          float(exact_percentile(vals, 90) - oo)))
     want["bright_perc_10"] = np.array([p[0] for p in exp_perc])
     want["bright_perc_90"] = np.array([p[1] for p in exp_perc])
-    want["inert_ratio_raw"] = inert_ratio.get_inert_ratio_raw(conts)
-    want["inert_ratio_cvx"] = inert_ratio.get_inert_ratio_cvx(conts)
-    want["inert_ratio_prnc"] = inert_ratio.get_inert_ratio_prnc(conts)
-    want["tilt"] = inert_ratio.get_tilt(conts)
-    want["volume"] = volume.get_volume(conts, data["pos_x"], data["pos_y"],
-                                       pix)
+    # contour features: every event from its own single call
+    want["inert_ratio_raw"] = np.array(
+        [float(inert_ratio.get_inert_ratio_raw(c)) for c in conts])
+    want["inert_ratio_cvx"] = np.array(
+        [float(inert_ratio.get_inert_ratio_cvx(c)) for c in conts])
+    want["inert_ratio_prnc"] = np.array(
+        [float(inert_ratio.get_inert_ratio_prnc(c)) for c in conts])
+    want["tilt"] = np.array([float(inert_ratio.get_tilt(c)) for c in conts])
+    want["volume"] = np.array(
+        [float(volume.get_volume(c, float(data["pos_x"][i]),
+                                 float(data["pos_y"][i]), pix))
+         for i, c in enumerate(conts)])
     if fl:
         # crosstalk-corrected maxima: measured = true * C  =>  true =
         # measured * C^-1, exact fractions; absent channels/coefficients are 0
@@ -2112,8 +2213,10 @@ def do_fmoments(ctx, case):
                         bad = "get_tilt = %r, exact %r" % (tilt, wt)
                 xm = float(np.abs(exact64).max())
                 if bad is None and n20 * n02 > n11 * n11 / 4 and xm <= 4096:
-                    ptol = 3e-5 + 2e-14 * xm ** 3 * max(
-                        float(np.abs(exact64).min(axis=0).max()), 1) / mu_min
+                    lam_min = (n20 + n02 - hyp) / 2 / (36 * A * den ** 4)
+                    ptol = 2e-7 + 2e-14 * xm ** 3 * max(
+                        float(np.abs(exact64).min(axis=0).max()), 1) / max(
+                            min(mu_min, lam_min), 1e-3)
                     s_ = n20 + n02
                     if s_ - hyp > 1e-6 * s_:
                         wp = math.sqrt((s_ + hyp) / (s_ - hyp))
@@ -2269,6 +2372,66 @@ def do_lazy(ctx, case):
                               "all-valid"))
 
 
+def gen_cbatch(rng, pool_contours):
+    """a list of DIFFERENT contours with different positions"""
+    n = rng.randint(2, 4)
+    conts = []
+    for _ in range(n):
+        if pool_contours and rng.random() < 0.4:
+            c = [list(map(int, p)) for p in rng.choice(pool_contours)]
+        else:
+            c = simple_polygon(rng, rng.randint(4, 20), rng.randint(3, 40),
+                               rng.randint(5, 250), rng.randint(5, 80))
+        if rng.random() < 0.3:
+            c = [[x + rng.randint(-3, 3) / 8, y + rng.randint(-3, 3) / 8]
+                 for x, y in c]
+        conts.append(c)
+    pos = [[sum(p[0] for p in c) / len(c) + rng.randint(-16, 16) / 8,
+            sum(p[1] for p in c) / len(c) + rng.randint(-16, 16) / 8]
+           for c in conts]
+    return dict(kind="cbatch", conts=conts, pos=pos,
+                pix=rng.choice([0.34, 0.2, 1.0, 0.68]))
+
+
+def do_cbatch(ctx, case):
+    """element i of every list-valued feature equals the feature of
+    contour i alone (same floats): no mixing of events, positions, sizes"""
+    np = _np()
+    from dclab.features import inert_ratio as ir, volume as vol
+    g = guard(ctx, case)
+    ir, vol = g.module(ir), g.module(vol)
+    pix = case["pix"]
+
+    def arrs():
+        return [np.array(c, dtype=(float if any(isinstance(v, float)
+                                                for p in c for v in p)
+                                   else int)) for c in case["conts"]]
+    px = np.array([p[0] * pix for p in case["pos"]])
+    py = np.array([p[1] * pix for p in case["pos"]])
+    ok = True
+    for name, f_list, f_one in (
+            ("get_inert_ratio_raw", lambda cs: ir.get_inert_ratio_raw(cs),
+             lambda c, i: ir.get_inert_ratio_raw(c)),
+            ("get_inert_ratio_cvx", lambda cs: ir.get_inert_ratio_cvx(cs),
+             lambda c, i: ir.get_inert_ratio_cvx(c)),
+            ("get_inert_ratio_prnc", lambda cs: ir.get_inert_ratio_prnc(cs),
+             lambda c, i: ir.get_inert_ratio_prnc(c)),
+            ("get_tilt", lambda cs: ir.get_tilt(cs),
+             lambda c, i: ir.get_tilt(c)),
+            ("get_volume", lambda cs: vol.get_volume(cs, px, py, pix),
+             lambda c, i: vol.get_volume(c, float(px[i]), float(py[i]), pix))):
+        out = np.asarray(f_list(arrs()), dtype=float)
+        one = np.array([float(f_one(c, i)) for i, c in enumerate(arrs())])
+        if out.shape != one.shape or not np.allclose(out, one, rtol=1e-12,
+                                                     atol=0, equal_nan=True):
+            ok = False
+            ctx.fail(case, "%s(list of %d different contours) = %s, the "
+                     "single contours give %s" % (name, len(one), out.tolist(),
+                                                  one.tolist()))
+    ctx.run.record_case(case, ok)
+    ctx.run.count("cbatch:n%d" % len(case["conts"]))
+
+
 SEQ_OPS = ["raw", "cvx", "prnc", "tilt", "moments", "volume"]
 
 
@@ -2419,7 +2582,7 @@ DISPATCH = dict(mask=do_mask, dedup=do_dedup, moments=do_moments,
                 rotation=do_rotation, volrev=do_volrev, volume=do_volume,
                 sphere=do_sphere, bright=do_bright, crosstalk=do_crosstalk,
                 dataset=do_dataset, sequence=do_sequence,
-                fmoments=do_fmoments, lazy=do_lazy)
+                fmoments=do_fmoments, lazy=do_lazy, cbatch=do_cbatch)
 
 
 def load_corpus():
@@ -2463,6 +2626,7 @@ def gen_dataset(rng, thorough):
                 with_off=rng.random() < 0.6,
                 off8=[rng.randint(-40, 40) for _ in range(n)],
                 pix=rng.choice([0.34, 0.34, 0.2, 0.5, 1.36]),
+                imgdtype=rng.choice(["uint8", "uint8", "uint16", "int16"]),
                 dpos=[[rng.randint(-12, 12), rng.randint(-8, 8)]
                       for _ in range(n)])
     if rng.random() < 0.7:
@@ -2488,8 +2652,16 @@ def gen_all(run):
     cases = load_corpus()
     run.count("corpus", len(cases))
     cases += [gen_mask(rng, run.thorough) for _ in range(140 * f)]
-    cases += [gen_mask(rng, run.thorough, tag="frame")
-              for _ in range(min(2 * f, 6))]
+    frames = [gen_mask(rng, run.thorough, tag="frame")
+              for _ in range(8 if not run.thorough else 12)]
+    cases += frames
+    # a 20 x 26 window of each frame (through all marching-squares stages)
+    for fr in frames:
+        rows = fr["rows"]
+        r0 = rng.randint(0, len(rows) - 20)
+        c0 = len(rows[0]) - 26 - rng.randint(0, 60)
+        cases.append(dict(kind="mask", tag="crop",
+                          rows=[r[c0:c0 + 26] for r in rows[r0:r0 + 20]]))
     return cases, f
 
 
@@ -2515,6 +2687,7 @@ def run(run):
     later += [gen_rotation(rng) for _ in range(50 * f)]
     later += [gen_sequence(rng, ctx.pool_contours) for _ in range(100 * f)]
     later += [gen_fmoments(rng, ctx.pool_contours) for _ in range(100 * f)]
+    later += [gen_cbatch(rng, ctx.pool_contours) for _ in range(60 * f)]
     later += [gen_volrev(rng) for _ in range(120 * f)]
     later += [gen_volume(rng, ctx.pool_contours) for _ in range(120 * f)]
     later += [dict(kind="sphere", a=rng.choice([3.0, 4.5, 6.0, 5.0]),
@@ -2522,7 +2695,7 @@ def run(run):
                    cx=rng.uniform(-5, 50), cy=rng.uniform(-5, 50),
                    dx=rng.choice([0, 0.5, 0.25]), dy=rng.choice([0, 0.5, 0.3]),
                    ns=[16, 64, 256, 1024], ks=[1, 4, 16])
-              for _ in range(4 * f)]
+              for _ in range(8 * f)]
     later += [gen_bright(rng) for _ in range(160 * f)]
     later += [gen_crosstalk(rng) for _ in range(100 * f)]
     later += [gen_dataset(rng, run.thorough) for _ in range(12 * f)]
@@ -2546,7 +2719,8 @@ def run(run):
     with concurrent.futures.ThreadPoolExecutor(
             max_workers=1 if run.thorough else 2) as ex:
         futs = {fn: ex.submit(common.coq_map, run.scratch, "c18_" + fn,
-                              HEADER, fn, [j[0] for j in jobs], 48)
+                              HEADER, fn, [j[0] for j in jobs],
+                              8 if fn == "run_get_contour" else 48)
                 for fn, jobs in ctx.jobs.items()}
         allouts = {fn: fu.result() for fn, fu in futs.items()}
     for fn, jobs in ctx.jobs.items():
